@@ -1,0 +1,164 @@
+/*
+ * Licensed to the Apache Software Foundation (ASF) under one or more
+ * contributor license agreements.  See the NOTICE file distributed with
+ * this work for additional information regarding copyright ownership.
+ * The ASF licenses this file to You under the Apache License, Version 2.0
+ * (the "License"); you may not use this file except in compliance with
+ * the License.  You may obtain a copy of the License at
+ *
+ *     http://www.apache.org/licenses/LICENSE-2.0
+ *
+ * Unless required by applicable law or agreed to in writing, software
+ * distributed under the License is distributed on an "AS IS" BASIS,
+ * WITHOUT WARRANTIES OR CONDITIONS OF ANY KIND, either express or implied.
+ * See the License for the specific language governing permissions and
+ * limitations under the License.
+ */
+
+package types
+
+import (
+	"database/sql/driver"
+	"io"
+	"reflect"
+)
+
+// BufferedRows is a result set that has been read to its end and is kept in memory. A driver such as
+// go-sql-driver/mysql streams a result and refuses every other command on the connection while rows are unread
+// ("busy buffer"): a query that runs inside a short transaction of the proxy's own must have its rows read before
+// that transaction can be committed, and the application reads them afterwards from here.
+type BufferedRows struct {
+	columns   []string
+	rows      [][]driver.Value
+	pos       int
+	dbTypes   []string
+	scanTypes []reflect.Type
+	nullable  []*bool
+	lengths   []*int64
+	precision [][2]*int64
+}
+
+// BufferRows reads rows to their end, closes them and returns what they held. The error that ended the result, if
+// any, is returned (the rows are closed in every case).
+func BufferRows(rows driver.Rows) (driver.Rows, error) {
+	if rows == nil {
+		return nil, nil
+	}
+	if _, already := rows.(*BufferedRows); already {
+		return rows, nil
+	}
+	defer rows.Close()
+	b := &BufferedRows{columns: append([]string(nil), rows.Columns()...)}
+	n := len(b.columns)
+	for i := 0; i < n; i++ {
+		if t, ok := rows.(driver.RowsColumnTypeDatabaseTypeName); ok {
+			b.dbTypes = append(b.dbTypes, t.ColumnTypeDatabaseTypeName(i))
+		}
+		if t, ok := rows.(driver.RowsColumnTypeScanType); ok {
+			b.scanTypes = append(b.scanTypes, t.ColumnTypeScanType(i))
+		}
+		if t, ok := rows.(driver.RowsColumnTypeNullable); ok {
+			var p *bool
+			if v, known := t.ColumnTypeNullable(i); known {
+				p = &v
+			}
+			b.nullable = append(b.nullable, p)
+		}
+		if t, ok := rows.(driver.RowsColumnTypeLength); ok {
+			var p *int64
+			if v, known := t.ColumnTypeLength(i); known {
+				p = &v
+			}
+			b.lengths = append(b.lengths, p)
+		}
+		if t, ok := rows.(driver.RowsColumnTypePrecisionScale); ok {
+			var pair [2]*int64
+			if pr, sc, known := t.ColumnTypePrecisionScale(i); known {
+				pair = [2]*int64{&pr, &sc}
+			}
+			b.precision = append(b.precision, pair)
+		}
+	}
+	for {
+		dest := make([]driver.Value, n)
+		err := rows.Next(dest)
+		if err == io.EOF {
+			return b, nil
+		}
+		if err != nil {
+			return nil, err
+		}
+		for i, v := range dest {
+			// byte values are slices of the driver's buffer, which the next row overwrites
+			if raw, ok := v.([]byte); ok && raw != nil {
+				dest[i] = append([]byte{}, raw...)
+			}
+		}
+		b.rows = append(b.rows, dest)
+	}
+}
+
+func (b *BufferedRows) Columns() []string { return b.columns }
+
+func (b *BufferedRows) Close() error {
+	b.pos = len(b.rows)
+	return nil
+}
+
+func (b *BufferedRows) Next(dest []driver.Value) error {
+	if b.pos >= len(b.rows) {
+		return io.EOF
+	}
+	copy(dest, b.rows[b.pos])
+	b.pos++
+	return nil
+}
+
+func (b *BufferedRows) ColumnTypeDatabaseTypeName(index int) string {
+	if index < len(b.dbTypes) {
+		return b.dbTypes[index]
+	}
+	return ""
+}
+
+func (b *BufferedRows) ColumnTypeScanType(index int) reflect.Type {
+	if index < len(b.scanTypes) && b.scanTypes[index] != nil {
+		return b.scanTypes[index]
+	}
+	return reflect.TypeOf(new(interface{})).Elem()
+}
+
+func (b *BufferedRows) ColumnTypeNullable(index int) (nullable, ok bool) {
+	if index < len(b.nullable) && b.nullable[index] != nil {
+		return *b.nullable[index], true
+	}
+	return false, false
+}
+
+func (b *BufferedRows) ColumnTypeLength(index int) (length int64, ok bool) {
+	if index < len(b.lengths) && b.lengths[index] != nil {
+		return *b.lengths[index], true
+	}
+	return 0, false
+}
+
+func (b *BufferedRows) ColumnTypePrecisionScale(index int) (precision, scale int64, ok bool) {
+	if index < len(b.precision) && b.precision[index][0] != nil {
+		return *b.precision[index][0], *b.precision[index][1], true
+	}
+	return 0, 0, false
+}
+
+// BufferResult reads the rows of a query result to their end (see BufferRows); a result without rows is handed back
+// as it is.
+func BufferResult(result ExecResult) (ExecResult, error) {
+	query, ok := result.(*queryResult)
+	if !ok || query == nil || query.Rows == nil {
+		return result, nil
+	}
+	rows, err := BufferRows(query.Rows)
+	if err != nil {
+		return nil, err
+	}
+	return &queryResult{Rows: rows}, nil
+}
